@@ -365,4 +365,183 @@ theorem fwdOKB_sound {β : Type} (T : Tables) (m : Msg β) (h : fwdOKB T m = tru
     rw [hs] at h2
     simpa using h2
 
+/-! ### the composition: a valid foreign message, received, forwarded, received again -/
+
+/-- The attribute a valid foreign message's known field leaves in the parsed object has the shape `AttrFwd` asks for. -/
+theorem pyOf_attrFwd (a : Attr) (hv : HVal) (hty : hv.ty = attrType a) (hwf : hv.wf = true) (fds : Option (List PyVal)) :
+    AttrFwd a (pyOf fds hv) ∧ (∀ s, pyOf fds hv = .str .plain s → ∃ c, hv = .text c s ∧ s.contains nul = false) := by
+  cases hv with
+  | num c raw =>
+    simp only [HVal.ty] at hty
+    subst hty
+    simp only [HVal.wf, Bool.and_eq_true, Bool.not_eq_true'] at hwf
+    cases a <;> simp only [attrType, isText] at hwf <;> try (exact absurd hwf.1.1 (by decide))
+    all_goals exact ⟨Or.inr ⟨_, _, rfl⟩, fun s h => by simp [pyOf, attrType] at h⟩
+  | text c s =>
+    simp only [HVal.ty] at hty
+    subst hty
+    simp only [HVal.wf, Bool.and_eq_true, Bool.not_eq_true'] at hwf
+    have hn : s.contains nul = false := hwf.1.2
+    cases a <;> simp only [attrType, isText] at hwf <;> try (exact absurd hwf.1.1 (by decide))
+    all_goals exact ⟨Or.inr ⟨s, rfl⟩, fun s' h => by simp only [pyOf, PyVal.str.injEq, true_and] at h; subst h; exact ⟨_, rfl, hn⟩⟩
+
+theorem plain_pyOf (a : Attr) (hv : HVal) (hty : hv.ty = attrType a) (hwf : hv.wf = true) (fds : Option (List PyVal)) :
+    plain (pyOf fds hv) = pyOf fds hv := by
+  cases hv with
+  | num c raw =>
+    simp only [HVal.ty] at hty
+    subst hty
+    simp only [HVal.wf, Bool.and_eq_true, Bool.not_eq_true'] at hwf
+    cases a <;> simp only [attrType, isText] at hwf <;> try (exact absurd hwf.1.1 (by decide))
+    all_goals rfl
+  | text c s => rfl
+
+/-- **Received, forwarded, received again.**  A valid message of the specification (`parse_foreign`'s premises) all of
+whose known fields - SENDER aside - are in the `_headerAttrs` table of its class: when the bus parses its bytes, sets
+`sender`, copies the byte-order mark and re-marshals with the raw body, the destination parses the same class, serial,
+flags, `otherFlags`, body, and every attribute the original carried, with `sender` = the name the bus set. -/
+theorem forward_foreign_gen {β : Type} (T : Tables) (hT : T.OK) (C : BodyCodec β) (maxLen : Nat)
+    (w : SpecMsg) (hw : w.valid = true) (cls : MsgClass) (hcls : w.mtype = T.messageType cls)
+    (known extra : List Field) (hperm : w.fields.Perm (known ++ extra))
+    (hextra : ∀ f ∈ extra, lookupAttr T f.1 = none)
+    (hknown : (known.map (fun f => lookupAttr T f.1)).Nodup)
+    (fds : Option (List PyVal)) (hfd : ∀ f ∈ w.fields, f.2.ty = .h → fds ≠ none)
+    (hinTab : ∀ f ∈ known, ∀ a, lookupAttr T f.1 = some a → a ≠ .sender → ∃ ent ∈ T.headerAttrs cls, ent.1 = a)
+    (hsender : ∃ ent ∈ T.headerAttrs cls, ent.1 = Attr.sender)
+    (decoded : β)
+    (hC : ∀ sg, Main.fieldFor T known .signature = some (.text .g sg) → sg ≠ [] →
+        C.unmarshal sg w.body (decide (w.endian = .little)) fds = .ok decoded)
+    (sender : List Char) (m m2 : Msg β)
+    (hp : parseMessage T C (Spec.encodeMsg w) fds = .ok m)
+    (hf : forward T maxLen m (Spec.endianByte w.endian).toNat sender = .ok m2) :
+    ∃ m3 : Msg β, parseMessage T C m2.raw fds = .ok m3 ∧
+      m3.cls = cls ∧ m3.serial = w.serial ∧
+      m3.expectReply = decide (w.flags % 2 = 0) ∧ m3.autoStart = decide (w.flags / 2 % 2 = 0) ∧
+      m3.otherFlags = w.flags / 4 * 4 ∧
+      (∀ a, m3.attrs a = if a = .sender then .str .plain sender else
+                         match Main.fieldFor T known a with
+                         | some hv => pyOf fds hv
+                         | none => .none) ∧
+      m3.body = m.body ∧ m3.rawBody = w.body ∧ m2.raw.length ≤ maxLen := by
+  obtain ⟨m', p0, p1, p2, p3, p4, p5, p6, p7, _, p9⟩ :=
+    Main.parse_foreign T hT C w hw cls hcls known extra hperm hextra hknown fds hfd decoded hC
+  rw [hp] at p0
+  cases p0
+  -- facts about the known fields of a valid message
+  have hwfall : w.fields.all Field.wf = true := by
+    have hsz := SpecMsg.sized_of_valid w hw
+    simp only [SpecMsg.sized, Bool.and_eq_true] at hsz
+    exact hsz.1.1.2
+  have hty : w.typed = true := by
+    simp only [SpecMsg.valid, Bool.and_eq_true] at hw; exact hw.1.2
+  have hfield : ∀ a hv, Main.fieldFor T known a = some hv →
+      ∃ f0 ∈ known, lookupAttr T f0.1 = some a ∧ f0.2 = hv ∧ hv.ty = attrType a ∧ hv.wf = true := by
+    intro a hv hfv
+    simp only [Main.fieldFor] at hfv
+    cases hfind : known.find? (fun f => lookupAttr T f.1 == some a) with
+    | none => rw [hfind] at hfv; cases hfv
+    | some f0 =>
+      rw [hfind] at hfv
+      simp only [Option.map_some, Option.some.injEq] at hfv
+      have hf0 := List.mem_of_find?_eq_some hfind
+      have hp0 := List.find?_some hfind
+      simp only [beq_iff_eq] at hp0
+      have hmem : f0 ∈ w.fields := (hperm.mem_iff).mpr (List.mem_append_left _ hf0)
+      have h1 := List.all_eq_true.mp hty f0 hmem
+      have h2 := hT.hcodeTypes _ (lookupAttr_mem T _ _ hp0)
+      rw [h2] at h1
+      simp only [beq_iff_eq] at h1
+      have hwf0 := List.all_eq_true.mp hwfall f0 hmem
+      simp only [Field.wf, Bool.and_eq_true] at hwf0
+      exact ⟨f0, hf0, hp0, hfv, by rw [← hfv]; exact h1, by rw [← hfv]; exact hwf0.2⟩
+  have hshape : ∀ a, AttrFwd a (m.attrs a) := by
+    intro a
+    rw [p5 a]
+    cases hfa : Main.fieldFor T known a with
+    | none => exact Or.inl rfl
+    | some hv =>
+      obtain ⟨_, _, _, _, h5, h6⟩ := hfield a hv hfa
+      exact (pyOf_attrFwd a hv h5 h6 fds).1
+  have hin : ∀ a, a ≠ .sender → m.attrs a ≠ .none → ∃ ent ∈ T.headerAttrs m.cls, ent.1 = a := by
+    intro a ha hn
+    rw [p5 a] at hn
+    cases hfa : Main.fieldFor T known a with
+    | none => rw [hfa] at hn; exact absurd rfl hn
+    | some hv =>
+      obtain ⟨f0, h1, h2, _⟩ := hfield a hv hfa
+      rw [p1]
+      exact hinTab f0 h1 a h2 ha
+  have hsigOf : ∀ s, m.attrs .signature = .str .plain s →
+      Main.fieldFor T known .signature = some (.text .g s) ∧ s.contains nul = false := by
+    intro s hs
+    rw [p5 .signature] at hs
+    cases hfa : Main.fieldFor T known .signature with
+    | none => rw [hfa] at hs; cases hs
+    | some hv =>
+      rw [hfa] at hs
+      obtain ⟨_, _, _, _, h5, h6⟩ := hfield .signature hv hfa
+      obtain ⟨c, hc, hn⟩ := (pyOf_attrFwd .signature hv h5 h6 fds).2 s hs
+      subst hc
+      simp only [HVal.ty, attrType] at h5
+      subst h5
+      exact ⟨rfl, hn⟩
+  have hend : (Spec.endianByte w.endian).toNat = 108 ∨ (Spec.endianByte w.endian).toNat = 66 := by
+    cases w.endian <;> simp [Spec.endianByte]
+  have hle : ((Spec.endianByte w.endian).toNat == 108) = decide (w.endian = .little) := by
+    cases w.endian <;> rfl
+  -- the forwarding call is `remarshal` on the object with `sender` set
+  unfold forward at hf
+  have hshape' : ∀ a, AttrFwd a (({ m with attrs := setAttr m.attrs .sender (.str .plain sender) } : Msg β).attrs a) := by
+    intro a
+    by_cases ha : a = .sender
+    · subst ha; simp only [setAttr, if_true]; exact Or.inr ⟨sender, rfl⟩
+    · simp only [setAttr, ha, if_false]; exact hshape a
+  have hin' : ∀ a, ({ m with attrs := setAttr m.attrs .sender (.str .plain sender) } : Msg β).attrs a ≠ .none →
+      ∃ ent ∈ T.headerAttrs m.cls, ent.1 = a := by
+    intro a
+    by_cases ha : a = .sender
+    · subst ha; intro _; rw [p1]; exact hsender
+    · simp only [setAttr, ha, if_false]; exact hin a ha
+  have hsigattr : ({ m with attrs := setAttr m.attrs .sender (.str .plain sender) } : Msg β).attrs .signature =
+      m.attrs .signature := by simp [setAttr]
+  obtain ⟨fs, _, _, _, _, q5, _, _, _, _, m3, r1, r2, r3, r4, r5, r6, r7, r8, _, _, r11⟩ :=
+    remarshal_parse_gen T hT C maxLen _ m2 _ m.rawBody hshape' hin' hend
+      (by rw [hsigattr]; exact fun s hs => (hsigOf s hs).2) hf fds decoded
+      (by
+        rw [hsigattr]
+        intro sg hs hne
+        rw [hle, p7]
+        exact hC sg (hsigOf sg hs).1 hne)
+  refine ⟨m3, r1, by rw [r2]; exact p1, by rw [r3]; exact p2, by rw [r4]; exact p3, by rw [r5]; exact p4,
+    by rw [r6, p9]; omega, ?_, ?_, by rw [r11]; exact p7, q5⟩
+  · intro a
+    rw [r7 a]
+    by_cases ha : a = .sender
+    · subst ha; simp [setAttr, plain]
+    · simp only [setAttr, ha, if_false]
+      rw [p5 a]
+      cases hfa : Main.fieldFor T known a with
+      | none => rfl
+      | some hv =>
+        obtain ⟨_, _, _, _, h5, h6⟩ := hfield a hv hfa
+        exact plain_pyOf a hv h5 h6 fds
+  · rw [r8, hsigattr, p6]
+    -- m.body as parse_foreign describes it = what the destination decodes
+    cases hfa : Main.fieldFor T known .signature with
+    | none =>
+      have : m.attrs .signature = .none := by rw [p5 .signature, hfa]
+      simp [this, truthy]
+    | some hv =>
+      obtain ⟨_, _, _, _, h5, h6⟩ := hfield .signature hv hfa
+      cases hv with
+      | num c raw =>
+        exfalso
+        simp only [HVal.ty, attrType] at h5
+        subst h5
+        simp [HVal.wf, isText] at h6
+      | text c sg =>
+        have : m.attrs .signature = .str .plain sg := by rw [p5 .signature, hfa]; rfl
+        rw [this]
+        cases sg <;> simp [truthy]
+
 end Txdbus.Msg
